@@ -344,4 +344,23 @@ CHECKS = {
                      'the hook after an adoption fires after the salt was assigned and saved, so a concurrently written message may already carry it: a newer salt is never blamed',
                      'the session file is rewritten in place by the store; a torn read by the harness is repeated (the property is about the content once written)'],
     ),
+    'C16': dict(
+        pkg='./c16', test='TestC16', level='exploration', helpers={'vdriver': './cmd/vdriver'},
+        quick=dict(shards=8, checks=25, budget_s=900),
+        thorough=dict(shards=16, checks=600, budget_s=3400),
+        level_text=('Generated histories of 1..12 server-to-client events on a live client (fresh process per case, drained warning channel, one registered handler), each followed '
+                    'by a probe request that must complete: every MTProto service constructor the client can be sent (pong, msgs_ack, new_session_created, bad_msg_notification, '
+                    'msgs_state_info, msgs_all_info, msg_detailed_info, msg_new_detailed_info, future_salts), rpc_result / rpc_error for unknown ids, a repeated result for an answered '
+                    'request, API objects as updates, unregistered constructor ids, truncated / empty / random bodies, empty and nested containers, gzip_packed around any object, '
+                    'content-related or not, and an orderly connection close (the server then expects a new connection whose frames are encrypted under the same key). Every event '
+                    'kind is also run alone in four wrappings.'),
+        technique='history generation (rapid) + per-event enumeration against a scripted reference server with a live client per case; state inspection for a stopped loop',
+        rule=('case = list of server events with wrapping flags; after each a probe. Non-trivial: at least one event other than pong/ack; distinct by hash of the event list.'),
+        must_hit=['event:' + k for k in ('pong', 'ack', 'new-session', 'bad-msg', 'state-info', 'all-info', 'detailed-info', 'new-detailed-info', 'future-salts', 'result-unknown',
+                  'result-again', 'error-unknown', 'update', 'updates-too-long', 'unknown-ctor', 'truncated', 'empty-body', 'empty-container', 'nested-container', 'raw-soup', 'close')] +
+                 ['event-gzip-packed', 'event-in-container', 'handler-called', 'warning-surfaced', 'verdict:ok'],
+        assumptions=['"close" is an orderly close (FIN); an abortive close (RST) is outside the statement - observed: the client then neither reconnects nor reports anything (noted in DESIGN.md)',
+                     'a request made while the client swaps connections may fail with a write error; the probe after a close is repeated until the new connection is in use',
+                     'the warning channel is drained (as the examples do)'],
+    ),
 }
